@@ -54,15 +54,25 @@ type VerifDetectorMsg struct {
 	Op    string
 	Reg   *DecoyRegistration
 	Valid bool
+	// Life identifies the lifetime a "New" announcement belongs to: the timeout record that tracks this registration's
+	// (secret, phantom, transport) at the moment of the announcement (nil: none). The announce hook runs inside the
+	// locked validate step, so the map read is safe.
+	Life any
 }
 
 // VerifCaptureDetector replaces the two detector closures by recorders.
 func (rm *RegistrationManager) VerifCaptureDetector(sink *[]VerifDetectorMsg) {
 	rm.registeredDecoys.registerForDetector = func(d *DecoyRegistration) {
-		*sink = append(*sink, VerifDetectorMsg{"New", d, d.Valid})
+		var life any
+		if d != nil && d.PhantomIp != nil {
+			if t, ok := rm.registeredDecoys.decoysTimeouts[rm.registeredDecoys.timeoutKey(d, d.PhantomIp.String())]; ok {
+				life = t
+			}
+		}
+		*sink = append(*sink, VerifDetectorMsg{"New", d, d.Valid, life})
 	}
 	rm.registeredDecoys.updateInDetector = func(d *DecoyRegistration) {
-		*sink = append(*sink, VerifDetectorMsg{"Update", d, d.Valid})
+		*sink = append(*sink, VerifDetectorMsg{"Update", d, d.Valid, nil})
 	}
 }
 
